@@ -16,6 +16,9 @@ type scenarioOpts struct {
 	tooLong   bool // allow too-long difference answers (C03)
 	maxSteps  int
 	crashable bool
+	// unknownChannels: some channels are not in the initial storage; the client
+	// learns them from the first pushed update (C03's crash points)
+	unknownChannels bool
 }
 
 type fataler interface{ Fatalf(string, ...any) }
@@ -90,8 +93,21 @@ func genWorld(t *rapid.T, opts scenarioOpts) *scenario {
 	}
 	w.store = &memStorage{w: w, has: true, channels: map[int64]int{}}
 	w.store.state = updates.State{Pts: w.base["pts"], Qts: w.base["qts"], Date: w.date, Seq: 0}
+	w.unknown, w.learnedStart, w.learnedAt = map[string]bool{}, map[string]int{}, map[string]int{}
 	for _, id := range sc.channels {
+		if opts.unknownChannels && rapid.Bool().Draw(t, "unknownChannel") {
+			// a channel the client has never seen: nothing stored; it learns the channel
+			// from the first update it is pushed and starts right before that update
+			w.unknown[chSeq(id)] = true
+			sc.class("unknown-channel")
+			continue
+		}
 		w.store.channels[id] = w.base[chSeq(id)]
+	}
+	if opts.unknownChannels {
+		// getChannelDifference takes time: the client can be interrupted while a
+		// channel worker waits for its first answer
+		w.chDiffLatency = time.Duration(rapid.SampledFrom([]int{0, 0, 50, 2000}).Draw(t, "chDiffLatencyMs")) * time.Millisecond
 	}
 	return sc
 }
@@ -158,7 +174,7 @@ func (sc *scenario) seqs() []string {
 	return s
 }
 
-func (sc *scenario) container(t *rapid.T, ents []entry) tg.UpdatesClass {
+func (sc *scenario) container(t *rapid.T, ents []entry, noSeq ...bool) tg.UpdatesClass {
 	var ups []tg.UpdateClass
 	for _, e := range ents {
 		ups = append(ups, e.update())
@@ -170,7 +186,7 @@ func (sc *scenario) container(t *rapid.T, ents []entry) tg.UpdatesClass {
 	// updates sequence; a container that is generated but never pushed (lost)
 	// leaves a seq gap
 	seq := 0
-	if rapid.IntRange(0, 2).Draw(t, "withSeq") == 0 {
+	if rapid.IntRange(0, 2).Draw(t, "withSeq") == 0 && !(len(noSeq) > 0 && noSeq[0]) {
 		// (draws never happen under the world mutex: a draw can panic out of the
 		// property while rapid shrinks, and a mutex left locked wedges the bubble)
 		lost := rapid.IntRange(0, 4).Draw(t, "seqLost") == 0
@@ -240,11 +256,34 @@ func (sc *scenario) runSteps(t *rapid.T, opts scenarioOpts) {
 				continue
 			}
 			note("push%v", ents)
-			sc.push(t, sc.container(t, ents))
-			if rapid.Bool().Draw(t, "waitAfterPush") {
+			var learning []string
+			sc.w.mu.Lock()
+			for _, e := range ents {
+				if _, seen := sc.w.learnedStart[e.seq]; sc.w.unknown[e.seq] && !seen {
+					sc.w.learnedStart[e.seq] = e.start
+					learning = append(learning, e.seq)
+				}
+			}
+			sc.w.mu.Unlock()
+			// (the update that introduces an unknown channel travels in a container
+			// without seq: after a seq gap the client drops the container and relies
+			// on updates.difference, which on a real server names the channel through
+			// updateChannelTooLong - something this simulation does not model)
+			sc.push(t, sc.container(t, ents, len(learning) > 0))
+			if len(learning) > 0 || rapid.Bool().Draw(t, "waitAfterPush") {
 				synctest.Wait()
 			} else {
 				sc.class("push-no-wait")
+			}
+			if len(learning) > 0 {
+				// quiescent: the client has consumed the update, so from here on it knows
+				// the channel (a worker may still be waiting for its first difference)
+				sc.w.mu.Lock()
+				for _, s := range learning {
+					sc.w.learnedAt[s] = len(sc.w.trace)
+				}
+				sc.w.mu.Unlock()
+				sc.class("unknown-channel-learned")
 			}
 		case "lose":
 			if len(sc.outbox) > 0 {
@@ -274,7 +313,12 @@ func (sc *scenario) runSteps(t *rapid.T, opts scenarioOpts) {
 			id := sc.channels[rapid.IntRange(0, len(sc.channels)-1).Draw(t, "ch")]
 			sc.w.mu.Lock()
 			head := sc.w.head[chSeq(id)]
+			_, learned := sc.w.learnedStart[chSeq(id)]
+			notYet := sc.w.unknown[chSeq(id)] && !learned
 			sc.w.mu.Unlock()
+			if notYet {
+				continue // the first thing the client hears of an unknown channel is an update (defines where it starts)
+			}
 			u := &tg.UpdateChannelTooLong{ChannelID: id}
 			if rapid.Bool().Draw(t, "withPts") {
 				u.SetPts(head)
